@@ -296,9 +296,9 @@ def run(repo: Repo, rep: Report, tier: str) -> None:
         order = []
         for n in walk_local(cf.node):
             if isinstance(n, ast.Call) and call_name(n) in ("ConstantPropagationOptimizer", "CSEOptimizer"):
-                order.append((n.lineno, call_name(n), n))
+                order.append((n.lineno, n.col_offset, call_name(n)))
         order.sort()
-        names = [x[1] for x in order]
+        names = [x[2] for x in order]
         rep.check(names == ["ConstantPropagationOptimizer", "CSEOptimizer"], "C10-R5",
                   f"{cf.short} pass order", f"passes constructed in order {names}", cf.loc())
         from ..cfg import CFG
